@@ -169,6 +169,43 @@ def hard_exp(f, rng, n):
     return np.unique(np.array(out, dtype=np.uint64))
 
 
+def uniform_k_exp(f, rng, n):
+    """x ~ (k + u) ln2 with k uniform over the whole range of quotients (bit-uniform or log-uniform draws almost never
+    reach large |k|) and u uniform in [-1/2, 1/2] or within a log-uniform distance of the rounding boundary +-1/2."""
+    kmax = int(np.floor(np.log(float(f.largest)) / np.log(2.0)))
+    k = rng.integers(-kmax, kmax + 1, size=n).astype(np.float64)
+    u = rng.uniform(-0.5, 0.5, size=n)
+    d = np.exp2(rng.uniform(-30, -3.3, size=n))  # distance from the boundary: 2^-30 .. 0.1
+    edge = np.where(rng.random(n) < 0.5, 0.5 - d, -0.5 + d)
+    u = np.where(rng.random(n) < 0.5, u, edge)
+    with np.errstate(all="ignore"):
+        x = ((k + u) * np.log(2.0)).astype(f.ftype)
+    x = x[np.isfinite(x)]
+    return flt.np_bits(x).astype(np.uint64)
+
+
+def uniform_k_trig(f, rng, n):
+    """x = RN((k + u) pi/2) with k log-uniform up to 2^(p-2) (beyond that one ULP of x exceeds the period) and u uniform in
+    [-1/2, 1/2] or within a log-uniform distance of the quadrant boundary +-1/2."""
+    m = mp()
+    with m.workprec(400):
+        hp = Fraction(int(m.floor((m.pi / 2) * m.mpf(2) ** 300))) / Fraction(2) ** 300
+    limit = f.largest / 2 ** TRIG_J[f.bits]
+    out = []
+    ks = np.floor(np.exp2(rng.uniform(0, f.p - 2, size=n))).astype(np.int64)
+    us = rng.uniform(-0.5, 0.5, size=n)
+    ds = np.exp2(rng.uniform(-30, -3.3, size=n))
+    sel = rng.random(n)
+    sg = rng.random(n) < 0.5
+    for k, u, d, c, g in zip(ks, us, ds, sel, sg):
+        uu = u if c < 0.5 else ((0.5 - d) if g else (-0.5 + d))
+        q = (Fraction(int(k)) + Fraction(float(uu))) * hp
+        if 0 < q <= limit:
+            out.append(flt.index(flt.RN(q, f), f))
+    a = np.unique(np.array(out, dtype=np.uint64))
+    return np.concatenate([a, a | np.uint64(f.sign_mask)])
+
+
 def hard_trig(f, rng, n):
     """neighbours of RN(k pi/2) for small k, random k, and numerators of continued-fraction convergents of pi/2 up to the
     domain edge (the worst cases of argument reduction), the |x| < pi/4 transition, powers of two."""
@@ -261,9 +298,9 @@ def run(ctx):
     q = ctx.quick
     ctx.rule = (
         "exponential reduction: every finite float16 with |x| < log(largest), float32/64 bit-uniform samples in the domain plus constructed "
-        "hard cases RN(k ln2), RN((k+1/2) ln2) +-1..8 ULP for small and random k; trigonometric reduction: every finite float16 with |x| <= "
+        "hard cases RN(k ln2), RN((k+1/2) ln2) +-1..8 ULP for small and random k, and x = (k+u) ln2 with k uniform over the whole quotient range and u uniform or close to +-1/2; trigonometric reduction: every finite float16 with |x| <= "
         "largest/4, float32/64 bit-uniform samples in |x| <= largest/2^j plus neighbours of RN(k pi/2) (k<200 and random k<2^20), per-binade "
-        "continued-fraction worst cases M*2^e closest to multiples of pi/2, the pi/4 transition +-16 ULP, powers of two; both signs; "
+        "continued-fraction worst cases M*2^e closest to multiples of pi/2, x = (k+u) pi/2 with k log-uniform below 2^(p-2) and u uniform or close to +-1/2, the pi/4 transition +-16 ULP, powers of two; both signs; "
         "vectorised NumpyContext evaluation plus the scalar public entry point on a subsample. Oracle: mpmath at emax+4p+128 bits. "
         "Non-trivial = in-domain input with k != 0; distinct by (kind, format, x)."
     )
@@ -289,8 +326,8 @@ def run(ctx):
             tb = flt.np_bits(flt.random_bits_floats(rng, n, f, finite=True)).astype(np.uint64)
             e = rng.integers(f.bias - 30, f.bias + f.emax - TRIG_J[fb], size=n).astype(np.uint64)
             tb = (tb & np.uint64(~f.exp_mask & ((1 << f.bits) - 1))) | (e << np.uint64(f.mbits))
-        eb = np.unique(np.concatenate([eb, hard_exp(f, rng, 50 if q else 2000)]))
-        tb = np.unique(np.concatenate([tb, hard_trig(f, rng, 100 if q else 5000)]))
+        eb = np.unique(np.concatenate([eb, hard_exp(f, rng, 50 if q else 2000), uniform_k_exp(f, rng, 6000 if q else 400000)]))
+        tb = np.unique(np.concatenate([tb, hard_trig(f, rng, 100 if q else 5000), uniform_k_trig(f, rng, 1500 if q else 60000)]))
         for ch in np.array_split(eb, 16):
             tasks.append(("exp", fb, ch, False))
         for ch in np.array_split(tb, 16):
